@@ -261,7 +261,8 @@ def oracle (st : OSt) (op : Op) (v : View) (kind : String) : OSt × List String 
     | .tick t => st.now + t
     | _ => st.now
   -- the prologue of a session-borne command (and `poll`) runs the fail-safe timer
-  let timerRuns : Bool := (isSessOp op).isSome && opSess.isSome || op == .poll
+  -- (a reserved session takes no message: no prologue)
+  let timerRuns : Bool := (isSessOp op).isSome && (opSess.map (fun s => !s.reserved)).getD false || op == .poll
   let expiredByTimer : Bool := p.armed.isSome && timerRuns && st.now ≥ st.deadline
   -- a crash point in the past rewinds the store: what comes up is what had been there (same
   -- incarnations), and the later history of this case never happened
@@ -319,7 +320,9 @@ def oracle (st : OSt) (op : Op) (v : View) (kind : String) : OSt × List String 
       | none => none)
   let removed := (p.fabs.filter (fun f => !present f.idx)).map (·.idx)
   let v07c := if restartLike op || removed.isEmpty then [] else
-    (p.sess.filter (fun s => s.kind = "c" && !removed.contains s.fab)).filterMap (fun s =>
+    -- (sessions of fabrics that are THERE before the op; a session left over from a fabric that went
+    -- away earlier - e.g. the expired own session of a RemoveFabric - belongs to no other fabric)
+    (p.sess.filter (fun s => s.kind = "c" && !removed.contains s.fab && p.fabs.any (fun f => f.idx = s.fab))).filterMap (fun s =>
       match v.sess.find? (fun t => t.id = s.id) with
       | some t => if t.expired ≠ s.expired then some s!"C07 other-fabric-session: session {s.id} of fabric {s.fab} changed while fabric {removed} went away" else none
       | none => some s!"C07 other-fabric-session: session {s.id} of fabric {s.fab} disappeared while fabric {removed} went away")
@@ -512,7 +515,9 @@ def oracle (st : OSt) (op : Op) (v : View) (kind : String) : OSt × List String 
   let vx4 : List String := if !hasX || wiped then [] else
     xents.filterMap (fun e =>
       let fab := entryFab ((e.splitOn " ").getLastD "")
-      if !present fab then some s!"C07 ext-outlives-fabric: [{e}] refers to fabric index {fab}, which is gone"
+      -- (a subscription of a gone fabric is dropped lazily by the reporter and cannot be used meanwhile;
+      -- a binding is dropped synchronously by the FabricRemoval broadcast)
+      if !present fab then (if e.startsWith "SUB" then none else some s!"C07 ext-outlives-fabric: [{e}] refers to fabric index {fab}, which is gone")
       else match xBind.find? (fun b => b.1 = e) with
         | some b => if b.2 ≠ lookupD inc fab 0 then
             some s!"C07 stale-ext: [{e}] was made for incarnation {b.2} of fabric index {fab} and is still there on incarnation {lookupD inc fab 0}"
